@@ -195,3 +195,16 @@ Print Assumptions C11_tree_plain_case.
 Print Assumptions C11_tree_plain.
 Print Assumptions C11_tree_plain_refines.
 Print Assumptions C11_tree_nonvacuous.
+
+(* completion after `self.` (or `<own class>.`) inside the k-th method of a regular, parent-less
+   document: the labels generate_rhs_of_entity lists on the class-level table are
+   Scoping.complete_after_dot on the one-entity workspace (C11_after_dot), in the same order *)
+Theorem C11_tree_after_self_refines :
+  forall t k mt, regular t ->
+    nth_error (method_tables_of false t) k = Some mt ->
+    let e := entity_of_tree t in
+    e_parent e = None ->
+    labels_rhs (class_level_t [mt; root_table_of false t]) = complete_after_dot [e] (e_name e).
+Proof. exact compltree_after_self_refines. Qed.
+
+Print Assumptions C11_tree_after_self_refines.
